@@ -679,9 +679,13 @@ func createFamilyOnce(c *eng.Ctx) {
 	for _, b := range eng.BlocksT(f) {
 		for _, in := range b.Instrs {
 			if l, ok := in.(*ssa.Lookup); ok && eng.DependsOnField(l.X, "kv.store.families") {
-				// a look-up inside a helper counts at every site of CreateFamily that enters the helper
-				for _, top := range topsOf(f, in) {
-					lookups = append(lookups, eng.Site{Fn: f, Instr: top})
+				// the look-up itself (the creation may be written in the same helper / literal) ...
+				lookups = append(lookups, eng.Site{Fn: f, Instr: in})
+				// ... and, for a look-up inside a helper, every site of CreateFamily that enters the helper
+				if in.Parent() != f {
+					for _, top := range topsOf(f, in) {
+						lookups = append(lookups, eng.Site{Fn: f, Instr: top})
+					}
 				}
 			}
 		}
